@@ -3,9 +3,9 @@
 # (demo fails with the change and passes without; the full suite passes as on the unchanged tree), then store it
 # under /verif/seeded/<Cxx>-<mK>/
 prop=$1; m=$2
-wt=/tmp/wt/$prop
+wt=${WT_ROOT:-/tmp/wt}/$prop
 src=$wt/mutants/$m
-out=/verif/seeded/$prop-$m
+out=/verif/seeded/$prop-${OUT_NAME:-$m}
 export OMP_NUM_THREADS=2 MKL_NUM_THREADS=2 PYTHONDONTWRITEBYTECODE=1
 cd $wt || exit 9
 # a private copy of the worktree so that several confirmations can run in parallel
